@@ -324,6 +324,15 @@ Lemma blame_ECall G t f a : blame md GE G t (ECall f a) =
   | _, _ => blame_leaf (ECall f a)
   end.
 Proof. reflexivity. Qed.
+Lemma blame_ENam_NId G t o : blame md GE G t (ENam (NId o)) =
+  if only_subprograms (vis G (o_id o)) then (o_nid o, NoOverload) else blame_leaf (ENam (NId o)).
+Proof. reflexivity. Qed.
+Lemma blame_ENam_NSel G t l p o : blame md GE G t (ENam (NSel l p o)) =
+  match sel_item GE G l p o with
+  | Ok bs => if only_subprograms bs then (o_nid o, NoOverload) else blame_leaf (ENam (NSel l p o))
+  | Bad _ _ => blame_leaf (ENam (NSel l p o))
+  end.
+Proof. reflexivity. Qed.
 Lemma blame_args_ACons G ts c e r d : blame_args md GE G ts (ACons c e r) d =
   match c, ts with
   | ChPos, t :: ts' =>
@@ -701,7 +710,11 @@ Proof.
     cbn_sem. intros l E. injection E as <-. repeat constructor.
   - (* ENam *) intros n IH Fr. cbn [oc_expr] in Fr. destruct (IH Fr) as [In1 [_ [In3 _]]].
     assert (Hi : interp md GE G (ENam n) = interp md GE G' (ENam n)) by (cbn_sem; exact In1).
-    assert (Hb : forall t, blame md GE G t (ENam n) = blame md GE G' t (ENam n)) by reflexivity.
+    assert (Hb : forall t, blame md GE G t (ENam n) = blame md GE G' t (ENam n)).
+    { intros t. destruct n as [o|l p o|n' f|n' e0]; try reflexivity.
+      - rewrite !blame_ENam_NId. cbn [oc_name oc] in Fr. inversion Fr as [|? ? Hx _]. cbn [snd] in Hx.
+        rewrite (vis_agree (o_id o) Hx). reflexivity.
+      - rewrite !blame_ENam_NSel. rewrite sel_item_agree. reflexivity. }
     split; [exact Hi|]. split; [|split; [exact Hb|apply root_from; [exact Hi|exact Hb|discriminate]]].
     cbn_sem. exact In3.
   - (* ECall *) intros f a IH Fr. cbn [oc_expr] in Fr. frs. destruct (IH Fr1) as [Ia [_ [_ Iba]]].
